@@ -35,8 +35,8 @@ PROPS = {
                 outside=["the process as a whole (threads, signals, stdout, exit)", "CdpRunningValidator::check on arbitrary words in stave mode", "wall-clock bounds", "uninitialised-read findings in load_payload_raw"]),
     "C07": dict(decided="composition: scanner step gives true packet offset and bytes (C03); chunk i of preprocess_payload is the slice at i*slot (pointer equality, C12); every report of a validator step carries rdh_pos + 64 + index*slot and quotes exactly the word's 10 bytes (all step harnesses); CdpTracker/ view offset formulas for all indices",
                 outside=["rendering of numbers (std::fmt)", "stave-level multi-line messages", "E100/E101 positions"]),
-    "C08": dict(decided="RdhCru::from_buf(b).to_byte_slice() == b for all 2^512 headers; the scanner step delivers exactly the matching packets' bytes in order (C03, load mode); layer/stave, FEE and link match predicates for all values; BufferedWriter hands rdh0|payload0|rdh1|payload1 to its sink across a threshold flush",
-                outside=["files, stdout, the 1 MiB threshold, the writer thread", "union over all filter values", "stdin reader"]),
+    "C08": dict(decided="RdhCru::from_buf(b).to_byte_slice() == b for all 2^512 headers; the scanner step delivers exactly the matching packets' bytes in order (C03, load mode); layer/stave, FEE and link match predicates for all values",
+                outside=["BufferedWriter::push_cdp_arr/flush (best-effort harnesses exhaust 16 GB)", "files, stdout, the 1 MiB threshold, the writer thread", "union over all filter values", "stdin reader"]),
     "C09": dict(decided="ItsPayloadFsmContinuous::advance from new() over all sequences of <= 8 words is bisimilar to the documented diagram (12 implementation states, every edge covered); one step from every reachable state; reset_fsm; an identifier illegal in a state is reported ([E30]/[E40] in single-successor states, [E99x] + fallback sanity error in choice states) at the word",
                 outside=["sequences longer than 8 words in one query (covered inductively by the one-step harness)"]),
     "C10": dict(decided="RdhCruSanityValidator verdict == documented rules for all 2^512 headers (default, ITS-specialised, configured version; Header ID relative to the first header seen); RdhCruRunningChecker verdict == documented automaton over all 3-header histories from an HBF start and one step from an arbitrary checker state",
